@@ -5,3 +5,4 @@ import PynProps.C05
 import PynProps.C06
 import PynProps.C07
 import PynProps.C15
+import PynProps.C16
